@@ -33,6 +33,7 @@ def main():
         rc, o = sh("git apply %s" % os.path.join(sd, "patch.diff"), REPO)
         if rc != 0:
             rows.append((d, prop, "PATCH DOES NOT APPLY", ""))
+            print(d, prop, "PATCH DOES NOT APPLY", flush=True)
             sh("git checkout -- . && git clean -fdq", REPO)
             continue
         ev = os.path.join(VERIF, "evidence", prop + ".json")
